@@ -1027,7 +1027,11 @@ class GenericPlainRegistry(Generic[QuantityT, UnitT], metaclass=RegistryMeta):
                 obj2, *contexts, **ctx_kwargs
             )
 
-        return not isinstance(obj2, (self.Quantity, self.Unit))
+        # obj1 is treated as dimensionless; the relation is symmetric
+        if isinstance(obj2, (self.Quantity, self.Unit, str)):
+            return self.is_compatible_with(obj2, obj1, *contexts, **ctx_kwargs)
+
+        return True
 
     def convert(
         self,
